@@ -138,6 +138,16 @@ func RunW(p WPlan) (v hk.Verdict) {
 	}
 
 	m := wModel{excl: map[string]string{}, shared: map[string]map[string]bool{}, ins: map[string][]wIn{}}
+
+	// results handed out by the previous step: the runtime keeps using a routing result after the database lock is
+	// released (deliverDeduplicatedEvents), so a later call must not change a result handed out earlier
+	type heldResult struct {
+		what string
+		got  []string
+		was  []string
+	}
+
+	var held []heldResult
 	rejectedThenAccepted, rejected, deleted := false, false, false
 
 	for i, op := range p.Ops {
@@ -231,6 +241,16 @@ func RunW(p WPlan) (v hk.Verdict) {
 			}
 		}
 
+		for _, h := range held {
+			if !slices.Equal(h.got, h.was) {
+				v.Failf("%s: the result of %s handed out before this call was %v and has now become %v: results alias the database tables", what, h.what, h.was, h.got)
+
+				return v
+			}
+		}
+
+		held = held[:0]
+
 		// queries
 		for _, typ := range wTyps {
 			got, _ := db.GetResourceExclusiveController(typ)
@@ -316,6 +336,8 @@ func RunW(p WPlan) (v hk.Verdict) {
 
 						return v
 					}
+
+					held = append(held, heldResult{what: fmt.Sprintf("GetDependentControllers(%s/%s/%s)", ns, typ, id), got: got, was: slices.Clone(got)})
 
 					want := map[string]bool{}
 
